@@ -14,7 +14,7 @@ ASSUMPTIONS = [
 
 def sig(ev):
     return {"failed": ev["failed"], "panic": ev["panic"], "format": ev["format"], "entry": ev["entry"],
-            "all_verified": all(s["verified"] for s in ev["steps"]), "count_ok": ev["nbefore"] == len(ev["steps"])}
+            "all_verified": all(s["verified"] for s in ev["steps"]), "count_ok": ev["nbefore"] == len(ev["steps"]), "probe": ev.get("probe", "")}
 
 
 def desc(ev):
@@ -31,9 +31,11 @@ def run(ctx, replay):
     thorough = ctx.tier == "thorough"
     a = ctx.tlc_model("MC_RoundTrip", None, cfg_text=MC, label="MC_RoundTrip", workers=8, timeout=1800)
     traces, sums = vlib.drive_gen(ctx, "c02", 8, extra=["-n", 300 if thorough else 30])
+    t3, _ = vlib.drive_gen(ctx, "c02", 1, extra=["-probes", "1"], tag="probes")
+    traces += t3
     n, bad = vlib.judge(ctx, "Trace_RoundTrip", traces, timeout=3400)
     vlib.report_bad(ctx, bad, sig, desc,
-                    lambda ev: {"cases": [{k: ev[k] for k in ("src", "style", "format", "entry", "alg", "interpolate", "rot")}],
+                    lambda ev: {"cases": [{k: ev[k] for k in ("src", "style", "format", "entry", "alg", "interpolate", "rot", "probe") if k in ev}],
                                 "event": {k: ev[k] for k in ("failed", "errmsg", "nbefore") if k in ev}},
                     vlib.confirm_by_cases(ctx, "c02", "Trace_RoundTrip"))
     cov = {
